@@ -117,3 +117,25 @@ package arp
 //@   entry row parser: [call gopacket.NewDecodingLayerParser(layers.LayerTypeEthernet, bind_ds) as (p)]
 //@                        when len(ds) == 2 && isptr(ds[0], layers.Ethernet) && asptr(ds[0], layers.Ethernet) == addr(ret.rcvEth) && isptr(ds[1], layers.ARP) && asptr(ds[1], layers.ARP) == addr(ret.rcvARP)
 //@                          && ret.parser == p && p.IgnoreUnsupported && !p.IgnorePanic && ret.PacketSource == psrc && ret.results == results -> exit
+
+// outer function of the ARP-cache stage: the wrapped generator is asked with the caller's context and range; its
+// error is passed on with no stream; otherwise one worker bound to exactly that stream and the returned channel
+//@ func (*cacheReqGenerator).GenerateRequests
+//@   props C13 C11 C07 C12
+//@   observe GenerateRequests
+//@   entry row generr: [call GenerateRequests(g.reqgen, ctx, r) as (rs, e)] when e != nil && ret0 == nil && ret1 == e -> exit
+//@   entry row start:  [call GenerateRequests(g.reqgen, ctx, r) as (rs, e) ; go (*cacheReqGenerator).GenerateRequests$1{result: bind_res, requests: bind_rq, g: bind_g2}]
+//@                        when e == nil && ret0 == res && ret1 == nil && rq == rs && g2 == g -> exit
+//@ func NewCacheRequestGenerator
+//@   props C11 C13
+//@   ensures isptr(ret, cacheReqGenerator) && asptr(ret, cacheReqGenerator).reqgen == reqgen
+//@   ensures closureof(asptr(ret, cacheReqGenerator).getMAC, "NewCacheRequestGenerator$1")
+//@   ensures capt(asptr(ret, cacheReqGenerator).getMAC, "cache") == cache && capt(asptr(ret, cacheReqGenerator).getMAC, "gatewayMAC") == gatewayMAC
+//@ func NewCache
+//@   props C11
+//@   ensures ret != nil && fresh(ret) && (forall k int :: !mapin(ret.cache, k))
+//@ func (*Cache).Delete
+//@   props C11
+//@   observe Lock, Unlock, String
+//@   entry row del: [call Lock(_) ; call String(ip) as (k) ; call Unlock(_)]
+//@                    when !mapin(c.cache, k) && (forall j int :: j != k ==> mapin(c.cache, j) == pre(mapin(c.cache, j)) && mapget(c.cache, j) == pre(mapget(c.cache, j))) -> exit
